@@ -11,7 +11,7 @@ ID = 'C06'
 LEVEL = 'exploration'
 RULE = (
     'cases: random walks of 1-6 atoms (each with its own step scale, so mean-of-squares != square-of-mean) over '
-    '2-150 frames (thorough: up to 2000) in a random cell of the lattice zoo (non-orthogonal cells = 5 of 8 classes, '
+    '2-150 frames (thorough: up to 2000; two cases per quick run with 10 500 - 14 000 frames and a steady drift) in a random cell of the lattice zoo (non-orthogonal cells = 5 of 8 classes, '
     'half of all cells rotated), given wrapped so that atoms cross faces many times.  Oracle: O(T^2) time-origin '
     'average on the harness ground truth (unwrapped Cartesian walk).  Non-trivial = at least two atoms with different '
     'final displacement or a non-orthogonal cell, and at least one face crossing; distinct = SHA-1 of the walk.'
@@ -50,7 +50,15 @@ def run_unit(unit, rng, ctx):
     big = ctx.tier == 'thorough' and unit['i'] % 50 == 0
     T = int(rng.integers(500, 2001)) if big else int(rng.integers(2, 151))
     N = int(rng.integers(1, 7))
+    huge = unit['i'] in (7, 208) or (ctx.tier == 'thorough' and unit['i'] % 400 == 7)
+    if huge:
+        # more than 10 000 frames, large excursions (accumulated precision of the FFT-based MSD)
+        T = int(rng.integers(10500, 14000))
+        N = int(rng.integers(1, 3))
+        ctx.count('very_long_trajectories')
     drift = rng.normal(scale=0.02, size=(1, 1, 3)) if rng.integers(2) else None
+    if huge:
+        drift = rng.normal(scale=0.05, size=(1, 1, 3))
     U = gen.random_walk(rng, T, N, max_step=float(rng.choice([0.05, 0.2, 0.4])), drift=drift, p_still=0.1)
     if np.abs(np.diff(U, axis=0)).max() >= 0.49:
         U = U[0:1] + (U - U[0:1]) * (0.45 / np.abs(np.diff(U, axis=0)).max())
